@@ -85,3 +85,77 @@ Proof.
   - intros t0 Hne. rewrite !stream_of_stream, (crash_inside_batch_after_restarts c m be ops t es j Hc Hout HB HBb Hbok t0).
     now replace (t0 =? t_id t) with false by lia.
 Qed.
+
+(* ------------------------------------------------------------------ C07 in one statement *)
+(* the entries an operation puts in flight for topic [t0] *)
+Definition inflight (o : op) (t0 : N) : list entry :=
+  match o with
+  | OAppend t e => if t0 =? t_id t then [e] else []
+  | OBatch t es => if t0 =? t_id t then es else []
+  | _ => []
+  end.
+
+(* the crash images of operation [o] started in state [s] (process-crash model, completed writes persist):
+   nothing of it happened / all of it happened (appends: one positional write; reads: the atomic index
+   rename; queries: nothing durable) / for an admissible batch, the first j entry writes happened *)
+Inductive crash_image (c : Cfg) (v : env) (s : st) : op -> st -> Prop :=
+| CI_before o : crash_image c v s o (reopen c s)
+| CI_after o : op_ok c o -> crash_image c v s o (reopen c (fst (step v s o)))
+| CI_batch t es j : batch_ok c t es -> crash_image c v s (OBatch t es) (batch_crash c s t es j).
+
+Lemma ledger_step_app g o r t0 :
+  exists k, (k <= length (inflight o t0))%nat /\
+            l_app (lget (ledger_step g o r) t0) = l_app (lget g t0) ++ firstn k (inflight o t0).
+Proof.
+  assert (H0 : forall l : list entry, exists k, (k <= length l)%nat /\ l_app (lget g t0) = l_app (lget g t0) ++ firstn k l).
+  { intros l. exists 0%nat. split; [lia|]. cbn. now rewrite app_nil_r. }
+  destruct o as [t e | t es | t ck | t maxb ck start | t | ]; cbn [inflight].
+  - destruct r; cbn [ledger_step]; try apply H0.
+    destruct (N.eq_dec t0 (t_id t)) as [->|Hne].
+    + rewrite lget_lset_same, N.eqb_refl. exists 1%nat. split; [cbn; lia|reflexivity].
+    + rewrite lget_lset_other by exact Hne. apply H0.
+  - destruct r; cbn [ledger_step]; try apply H0.
+    destruct (N.eq_dec t0 (t_id t)) as [->|Hne].
+    + rewrite lget_lset_same, N.eqb_refl. exists (length es). split; [lia|]. cbn. now rewrite firstn_all.
+    + rewrite lget_lset_other by exact Hne. apply H0.
+  - destruct ck; [|cbn [ledger_step]; destruct r; apply (H0 [])].
+    destruct r; cbn [ledger_step]; try apply (H0 []).
+    destruct (N.eq_dec t0 (t_id t)) as [->|Hne]; [rewrite lget_lset_same|rewrite lget_lset_other by exact Hne]; apply (H0 []).
+  - destruct ck; [|cbn [ledger_step]; destruct r; apply (H0 [])].
+    destruct start; [cbn [ledger_step]; destruct r; apply (H0 [])|].
+    destruct r; cbn [ledger_step]; try apply (H0 []).
+    destruct (N.eq_dec t0 (t_id t)) as [->|Hne]; [rewrite lget_lset_same|rewrite lget_lset_other by exact Hne]; apply (H0 []).
+  - cbn [ledger_step]. destruct r; apply (H0 []).
+  - cbn [ledger_step]. destruct r; apply (H0 []).
+Qed.
+
+(* C07, model level, every crash point of every operation: after ANY history with restarts outside
+   block-id drift (any mode, any backend), for every operation [o] and every crash image of it, every
+   topic holds exactly its acknowledged stream followed by a prefix of what [o] had in flight for it *)
+Theorem c07_every_crash_image c m be ops o : cfg_ok c ->
+  outside_known (env_of c m be) init ops = true ->
+  N.of_nat (length (offered_all ops)) + N.of_nat (length (offered o)) <= u64_max ->
+  sum_len (offered_all ops) + sum_len (offered o) <= u64_max ->
+  let v := env_of c m be in
+  let s := exec v init ops in
+  forall image, crash_image c v s o image ->
+  forall t0, exists k, (k <= length (inflight o t0))%nat /\
+                       stream (get_ts image t0) = stream (get_ts s t0) ++ firstn k (inflight o t0).
+Proof.
+  intros Hc Hout HB HBb. cbn zeta. pose proof Hc as (_ & Hb0 & _).
+  destruct (GM_reachable c m be Hc ops init [] 0 0 (GM_init c Hb0) Hout ltac:(lia) ltac:(lia)) as (g & HG).
+  set (s := exec (env_of c m be) init ops) in *.
+  intros image Hci t0. inversion Hci as [o' | o' Hoko | t es j Hbok]; subst.
+  - exists 0%nat. split; [lia|]. pose proof HG as (_ & Hd & _). rewrite (reopen_stream c s Hc Hd). cbn. now rewrite app_nil_r.
+  - pose proof (GM_step c m be s g _ _ o Hc HG Hoko ltac:(lia) ltac:(lia)) as (_ & HG').
+    pose proof HG' as (_ & Hd' & _).
+    rewrite (reopen_stream c _ Hc Hd'), (GM_stream _ _ _ _ _ t0 HG'), (GM_stream _ _ _ _ _ t0 HG).
+    apply ledger_step_app.
+  - cbn [offered] in HB, HBb. unfold s.
+    rewrite (crash_inside_batch_after_restarts c m be ops t es j Hc Hout ltac:(lia) ltac:(lia) Hbok t0). cbn [inflight].
+    destruct (t0 =? t_id t) eqn:E.
+    + apply N.eqb_eq in E. subst t0. exists (Nat.min j (length es)). split; [lia|]. f_equal.
+      destruct (Nat.le_gt_cases j (length es)) as [H|H]; [now rewrite Nat.min_l by lia|].
+      rewrite Nat.min_r by lia. rewrite !firstn_all2 by lia. reflexivity.
+    + exists 0%nat. split; [cbn; lia|]. cbn. now rewrite app_nil_r.
+Qed.
